@@ -184,7 +184,15 @@ pub fn generate_c02(thorough: bool, seed: u64, _part: (usize, usize), em: &mut E
     for check in 0..2 { for nla in 0..2 { for ra in 0..2 { for &ssel in &[0u32, 1] {
         if nla == 0 && ssel == 0 && ra == 1 && check == 0 { continue; }
         crate::props::conn::tlsgate(em, check == 1, nla == 1, ra == 1, ssel);
+        // the same with the certificate policy set before / between the protocol switches
+        if check == 1 { for hist in &[4u8, 5] {
+            crate::props::conn::BUILDER_HIST.store(*hist, std::sync::atomic::Ordering::Relaxed);
+            crate::props::conn::tlsgate(em, true, nla == 1, ra == 1, ssel);
+            crate::props::conn::BUILDER_HIST.store(0, std::sync::atomic::Ordering::Relaxed);
+        } }
     } } } }
+    // NLA selected and TLS established, but a CredSSP reply is not a TSRequest: the connection fails, MCS never starts
+    for which in &[1u8, 2] { for junk in &["00", "3003020100", "ffffffff", ""] { crate::props::conn::nlagate(em, *which, junk); } }
     // absent / truncated / extended / random confirms
     let good = confirm(2, 0, 1);
     // ... and the same at stream level: the TPKT frame itself cut short or announcing more than arrives
